@@ -23,11 +23,13 @@ func checkC04(c *Ctx) {
 	c.Rule("C04.R3", "conflict paths are effect-free: in lease operations no error return is reachable after a mutation other than releasing an expired lease")
 	c.Rule("C04.R4", "conflict classification at the API: lease-not-found/expired ⇒ 409 ⇒ FailedPrecondition; the idempotency cache is written only after a Store success and never consulted by Extend")
 	c.Rule("C04.R5", "ids entering the idempotency cache are settled ids: the id just passed to the Store call that returned nil, or — after a batch call — a presented id kept only when absent (by key presence) from a set holding the LeaseID of every conflict of that call")
+	c.Rule("C04.R6", "the batch lease-id normalisers of both transports forward each id in the form they de-duplicated it under (the trimmed id), and agree with each other")
 	checkSQLFencing(c, "C04.R1")
 	checkMemoryFencing(c, "C04.R2")
 	checkFailedOpEffectFree(c, "C04.R3", isLeaseOp)
 	checkConflictAPI(c, "C04.R4")
 	checkCacheKeys(c, "C04.R5")
+	checkLeaseIDNormalisers(c, "C04.R6")
 }
 
 // ---- R1 ----
